@@ -342,12 +342,39 @@ def check_times(case, obs):
     return viols
 
 
+def check_bytes_like(obs):
+    ''' Block data handed over as bytearray or memoryview (what a reassembly buffer or a received frame is) reaches the wire as the
+    same byte string as bytes would. '''
+    from bp.encoding import Bundle, PrimaryBlock, CanonicalBlock, Timestamp
+    viols = []
+    for plen in (0, 1, 23, 24, 300):
+        data = bytes((i * 5 + 1) & 0xFF for i in range(plen))
+        encs = {}
+        for form, value in (('bytes', data), ('bytearray', bytearray(data)), ('memoryview', memoryview(data))):
+            obs['bytes_like_blocks'] = obs.get('bytes_like_blocks', 0) + 1
+            try:
+                real = Bundle(primary=PrimaryBlock(destination='dtn://d/', source='dtn://s/', report_to='dtn:none',
+                                                   create_ts=Timestamp(dtntime=5, seqno=7), lifetime=5, crc_type=0),
+                              blocks=[CanonicalBlock(type_code=200, block_num=4, crc_type=1, btsd=value), CanonicalBlock(type_code=1, block_num=1)])
+                real.blocks[1].setfieldval('btsd', value)
+                real.fill_fields()
+                real.update_all_crc()
+                encs[form] = bytes(real)
+                dec, problems = bpv7.decode(encs[form])
+                if problems or [blk['data'] for blk in dec['blocks']] != [data, data]:
+                    viols.append(('bytes-like', 'block data of %d octets given as %s is encoded as %s %s' % (
+                        plen, form, [None if blk['data'] is None else len(blk['data']) for blk in dec['blocks']], problems[:1]), {}))
+            except Exception as err:  # pylint: disable=broad-except
+                viols.append(('bytes-like', 'block data of %d octets given as %s: %s: %s' % (plen, form, type(err).__name__, str(err)[:80]), {}))
+    return viols
+
+
 def run_case(case):
     obs = dict(d1_real_to_oracle=0, d2_real_roundtrip=0, d3_oracle_to_real=0, status_reports=0, fragments=0, typed_blocks=0)
     violations = []
     classes = set()
     if case['kind'] == 'times':
-        viols = check_times(case, obs)
+        viols = check_times(case, obs) + check_bytes_like(obs)
         violations = [dict(key=None, what='%s: %s' % (kind, what), detail=detail) for (kind, what, detail) in viols[:10]]
         return dict(verdict='violated' if violations else 'held', nontrivial=True, cls={'times|%d' % case['seed']}, obs=obs,
                     violations=violations, sample=dict(kind='times'), evaluations=obs.get('time_conversions', 0))
